@@ -115,6 +115,19 @@ def oracle_c03(cid, impl, m):
     the sequential and (cres) the real concurrent checkgroup."""
     if _hang(impl, m):
         return _hang(impl, m)
+    if "sres" in impl:
+        # a single SQL statement of the check was cancelled; the model's `res` is the answer when the storage call it
+        # belongs to fails as a whole
+        if "res" not in m or "res0" not in m:
+            return None
+        memb, _, err = impl["sres"].partition("/")
+        if err != "none" and memb == "isMember":
+            return ("c03-allowed-with-error", f"answer {impl['sres']} carries an error and says allowed")
+        if err == "none" and not m["res"].endswith("/none") and impl["sres"] != m["res0"]:
+            kind = "c03-fail-open" if _allowed(impl["sres"]) and not _allowed(m["res0"]) else "c03-changed"
+            return (kind, f"SQL statement {impl.get('x_stmt')} failed: the check answered {impl['sres']} without an error; the undisturbed "
+                          f"answer is {m['res0']}, and the failure of the whole storage call gives {m['res']}")
+        return True
     if "res" not in impl:
         return None          # over the harness's storage-call budget (legitimately: the model needs that many too)
     # faults raised inside the storage layer (a stored row that cannot be decoded): judged against the
@@ -205,6 +218,13 @@ def oracle_c03_batch(cid, impl, m):
     if r is True or r is None:
         return r
     return ("c03-batch:" + r[0], r[1])
+
+
+def oracle_c03_stmt(cid, impl, m):
+    """Wide nodes (the storage layer's own page loops and probes): only the statement-level fault lines are C03's."""
+    if "sres" not in impl:
+        return None
+    return oracle_c03(cid, impl, m)
 
 
 def oracle_c15_wide(cid, impl, m):
@@ -1138,8 +1158,9 @@ PROPS = {
                      "Keto.C03_fault_answer_exact_all", "Keto.C03_fault_independent_all",
                      "Keto.build_err_not_member"],
         "streams": [{"name": "engine-c03", "n": {"quick": 150, "thorough": 500}, "oracle": oracle_c03, "thorough_seeds": 2},
-                    {"name": "engine-life", "n": {"quick": 40, "thorough": 300}, "oracle": oracle_c03_batch, "thorough_seeds": 2}],
-        "rule": ENGINE_RULE + "; for every generated case the k-th storage call fails for every k up to min(N,14), transiently and persistently; and each case is re-run with one stored row at a time made undecodable, so that the queries that fetch it fail while rows are scanned (a fault below the Manager/Traverser interface); stream engine-life: Engine.BatchCheck over 2-6 queries on the same state with the k-th storage call of the whole batch failing, or the request cancelled there (one line per entry)",
+                    {"name": "engine-life", "n": {"quick": 40, "thorough": 300}, "oracle": oracle_c03_batch, "thorough_seeds": 2},
+                    {"name": "engine-wide", "n": {"quick": 10, "thorough": 60}, "oracle": oracle_c03_stmt, "thorough_seeds": 2}],
+        "rule": ENGINE_RULE + "; for every generated case the k-th storage call fails for every k up to min(N,14), transiently and persistently; and each case is re-run with one stored row at a time made undecodable, so that the queries that fetch it fail while rows are scanned (a fault below the Manager/Traverser interface); statement-level faults: the k-th SQL statement of a check (k up to 14) is cancelled right before it is sent - a fault below the Manager/Traverser interface - and the answer is compared with the model's for the failure of the storage call the statement belongs to, on the small cases and on the very wide nodes of stream engine-wide; stream engine-life: Engine.BatchCheck over 2-6 queries on the same state with the k-th storage call of the whole batch failing, or the request cancelled there (one line per entry)",
         "partial": "",
         "assumptions": [],
     },
